@@ -30,8 +30,11 @@ fuzz_target!(|data: &[u8]| {
             HOp::Scc => { h.set_connection_close(); (5, 3, 0, 0) }
         };
         // what this operation did to the derived answers, by the shape of what was stored
-        feature(&[kind, nc, vlen, shape, digits(h.get_content_length()), h.is_transfer_encoding_chunked() as u64, h.is_connection_close() as u64,
-                  h.has_invalid_framing() as u64, (i.min(3)) as u64]);
+        let vb = if nc == 1 { vlen } else { match vlen { 0 => 0, 1..=7 => 1, 8..=15 => 2, _ => 3 } };
+        let cl = h.get_content_length();
+        let clb = if nc == 1 { digits(cl) } else { cl.is_some() as u64 };
+        feature(&[kind, nc, vb, shape, clb, h.is_transfer_encoding_chunked() as u64, h.is_connection_close() as u64, h.has_invalid_framing() as u64]);
+        let _ = i;
     }
     feature(&[9, h.get_count().min(8) as u64, h.get("content-length").is_some() as u64, h.get("connection").map(|v| v.len().min(8) + 1).unwrap_or(0) as u64,
               h.get("x-sig~1").is_some() as u64, h.get_all("transfer-encoding").count().min(3) as u64]);
